@@ -48,38 +48,66 @@ def gen(args) -> list:
         calc = cal._year_month_day_calculator
         cc = rnd.random()
         y = cal.min_year + rnd.randint(0, 2) if cc < 0.1 else cal.max_year - rnd.randint(0, 2) if cc < 0.2 else rnd.randint(cal.min_year, cal.max_year)
-        # a window of consecutive days around the start of calendar year y
-        ys = calc._get_start_of_year_in_days(y)
-        lo, hi = max(ys - 10, cal._min_days), min(ys + 10, cal._max_days)
-        # ... plus a few days anywhere in that year (week numbers far from 1 and 52) and one more window of consecutive days mid-year
-        mid = rnd.randint(ys, min(ys + 340, cal._max_days))
-        days = list(range(lo, hi + 1)) + sorted(rnd.randint(ys, min(ys + 380, cal._max_days)) for _ in range(5)) + \
-            list(range(mid, min(mid + 9, cal._max_days) + 1))
-        for n in days:
-            d = LocalDate._ctor(days_since_epoch=n, calendar=cal)
-            ev = {"op": "wk", "key": f"{name}|{cal.id}|{y}", "cal": cal.id, "n": n, "y": d.year, "min_days": md, "first_dow": fd, "irregular": irr}
-            try:
-                wy = rule.get_week_year(d)
-                w = rule.get_week_of_week_year(d)
-                ev.update(wy=wy, w=w, dow=int(d.day_of_week), weeks=rule.get_weeks_in_week_year(wy, cal))
-                back = rule.get_local_date(wy, w, d.day_of_week, cal)
-                ev["rt"] = back == d
-                if name == "iso" and cal.id == "ISO" and 1 <= d.year <= 9999:
-                    iso = dt.date(d.year, d.month, d.day).isocalendar()
-                    ev["iso_std"] = (iso[0], iso[1], iso[2]) == (wy, w, int(d.day_of_week)) and \
-                        LocalDate.from_week_year_week_and_day(wy, w, d.day_of_week) == d
-            except Exception as e:  # noqa: BLE001
-                ev.update(exc=type(e).__name__, wy=0, w=0, dow=0, weeks=0, rt=False)
-            if "exc" not in ev:
-                # projection for the declarative definition (private year starts; one year past the range they may not exist:
-                # then the event carries no year starts and only the self-consistency clauses apply)
+        def one_window(name=name, md=md, fd=fd, irr=irr, rule=rule, cal=cal, calc=calc, y=y, touch_next=False):
+            if touch_next:
+                LocalDate(y + 1, 1, 1, cal).day_of_week      # the year after, asked about first
+            # a window of consecutive days around the start of calendar year y
+            ys = calc._get_start_of_year_in_days(y)
+            lo, hi = max(ys - 10, cal._min_days), min(ys + 10, cal._max_days)
+            # ... plus a few days anywhere in that year (week numbers far from 1 and 52) and one more window of consecutive days mid-year
+            mid = rnd.randint(ys, min(ys + 340, cal._max_days))
+            days = list(range(lo, hi + 1)) + sorted(rnd.randint(ys, min(ys + 380, cal._max_days)) for _ in range(5)) + \
+                list(range(mid, min(mid + 9, cal._max_days) + 1))
+            if touch_next:
+                # ... and the last days of that year (where a year whose months do not add up to its length shows)
                 try:
-                    ev["ys_wy"] = calc._get_start_of_year_in_days(ev["wy"])
-                    ev["ys_next"] = calc._get_start_of_year_in_days(ev["wy"] + 1)
+                    ye = calc._get_start_of_year_in_days(y + 1)
+                    days += list(range(max(ye - 12, cal._min_days), min(ye + 2, cal._max_days) + 1))
                 except Exception:  # noqa: BLE001
-                    ev.pop("ys_wy", None)
-                    ev.pop("ys_next", None)
-            evs.append(ev)
+                    pass
+            dates = [LocalDate._ctor(days_since_epoch=n, calendar=cal) for n in days]
+            if touch_next:
+                # ... those last days also given by their fields (month lengths are what a year's cached data is about)
+                try:
+                    last_m = LocalDate._ctor(days_since_epoch=calc._get_start_of_year_in_days(y + 1) - 1, calendar=cal).month
+                    for mm in {last_m, 3, 4}:
+                        dim = cal.get_days_in_month(y, mm)
+                        dates += [LocalDate(y, mm, dd, cal) for dd in range(max(1, dim - 6), dim + 1)]
+                except Exception:  # noqa: BLE001
+                    pass
+            for d in dates:
+                n = d._days_since_epoch
+                ev = {"op": "wk", "key": f"{name}|{cal.id}|{y}", "cal": cal.id, "n": n, "y": d.year, "min_days": md, "first_dow": fd, "irregular": irr}
+                try:
+                    wy = rule.get_week_year(d)
+                    w = rule.get_week_of_week_year(d)
+                    ev.update(wy=wy, w=w, dow=int(d.day_of_week), weeks=rule.get_weeks_in_week_year(wy, cal))
+                    back = rule.get_local_date(wy, w, d.day_of_week, cal)
+                    ev["rt"] = back == d
+                    if name == "iso" and cal.id == "ISO" and 1 <= d.year <= 9999:
+                        iso = dt.date(d.year, d.month, d.day).isocalendar()
+                        ev["iso_std"] = (iso[0], iso[1], iso[2]) == (wy, w, int(d.day_of_week)) and \
+                            LocalDate.from_week_year_week_and_day(wy, w, d.day_of_week) == d
+                except Exception as e:  # noqa: BLE001
+                    ev.update(exc=type(e).__name__, wy=0, w=0, dow=0, weeks=0, rt=False)
+                if "exc" not in ev:
+                    # projection for the declarative definition (private year starts; one year past the range they may not exist:
+                    # then the event carries no year starts and only the self-consistency clauses apply)
+                    try:
+                        ev["ys_wy"] = calc._get_start_of_year_in_days(ev["wy"])
+                        ev["ys_next"] = calc._get_start_of_year_in_days(ev["wy"] + 1)
+                    except Exception:  # noqa: BLE001
+                        ev.pop("ys_wy", None)
+                        ev.pop("ys_next", None)
+                evs.append(ev)
+
+        if cal.id.startswith("Hebrew") and cal.min_year + 2 < y < cal.max_year - 2 and rnd.random() < 0.5:
+            # from empty caches, with the year after asked about first (a year's cached data may be derived from its neighbour's)
+            from harness.props.c13 import cold as _cold
+
+            _cold(calc, lambda: one_window(touch_next=True))
+        else:
+            one_window()
     # (week-year, week, weekday) -> date, including weeks that do not exist and dates outside the calendar
     for _ in range(nwin):
         name, md, fd, irr, rule = rnd.choice([r for r in rules if not r[3]])
@@ -148,6 +176,10 @@ def gen(args) -> list:
                 ev[name + "_raised"] = True
         evs.append(ev)
         y, m, occ = rnd.choice([1, 9999, rnd.randint(1, 9999), rnd.randint(-9998, 9999)]), rnd.randint(1, 12), rnd.randint(1, 5)
+        if rnd.random() < 0.15:
+            # the last occurrence in a February of a year of 1 BCE or earlier (absolute years 0, -4, ... are leap; years of era 1, 5, ... are not)
+            y, m, occ = -rnd.choice([0, 4, 8, 100, 400, 3, 7, rnd.randint(0, 9000)]), 2, rnd.choice([5, 5, 4])
+            dow = LocalDate(y, 2, rnd.choice([1, 1, 29 if CalendarSystem.iso.is_leap_year(y) else 28]), CalendarSystem.iso).day_of_week
         ev = {"op": "nth", "y": y, "m": m, "occ": occ, "dow": int(dow)}
         try:
             ev["res"] = LocalDate.from_year_month_week_and_day(y, m, occ, dow)._days_since_epoch
